@@ -290,6 +290,45 @@ def run(chk):
                 chk.ob('R17.4', inst + f': slot {slot} holds a Kepler-consistent (a, n, P) with the given value, all other slots untouched', not bad,
                        '; '.join(bad[:2]), mo.where(ms[meth]),
                        key=f'R17.4|{inst}', method='interpreted mutator (real world_signature_to_index; every outcome of its tests on the value) + GF(p^2) PIT')
+    # R17.11 array-valued quantities are objects: the same array may be handed to two worlds (one grid of periods for two moons), and a value read from the orbit may be handed
+    # back for another world.  After any later update of ONE world, the other world's stored (a, n, P) must still be Kepler-consistent and the arrays the caller handed in must
+    # still hold what the caller put there (an update that refreshes a stored array in place writes into whatever object sits in the slot).
+    from ..core.interp import ArrBox
+    def unb(v): return getattr(v, 'v', v)
+    first = {'semi_major_axis': ('set_semi_major_axis', '_semi_major_axes'), 'orbital_frequency': ('set_orbital_frequency', '_orbital_frequencies'), 'orbital_period': ('set_orbital_period', '_orbital_periods')}
+    for q1, (m1, store1) in first.items():
+        for q2, (m2, _s2) in first.items():
+            if q2 == q1: continue
+            for share in ('one array handed to both moons', 'the value stored for moon 1 read back and handed to moon 2'):
+                shared0 = X.atom('shared_grid', 'pos'); later = X.atom('later_value', 'pos')
+                def scen(q1=q1, m1=m1, m2=m2, store1=store1, share=share, shared0=shared0, later=later):
+                    old_mode = getattr(it2, 'array_mode', False); it2.array_mode = True
+                    try:
+                        o, worlds = fresh()
+                        for k_ in KEP: o.attrs[k_] = [None, None, None]
+                        cell = ArrBox(shared0)
+                        it2.call(mo, ms[m1], [1, cell], {}, self_obj=o)
+                        second = cell if share.startswith('one array') else o.attrs[store1][1]
+                        it2.call(mo, ms[m1], [2, second], {}, self_obj=o)
+                        it2.call(mo, ms[m2], [1, ArrBox(later)], {}, self_obj=o)          # moon 1 migrates, given through another quantity
+                        return o, cell
+                    finally:
+                        it2.array_mode = old_mode
+                bad = []
+                for lab_, (o, cell) in paths(scen):
+                    for i_ in (1, 2):
+                        a_, n_, P_ = (unb(o.attrs[k_][i_]) for k_ in KEP)
+                        if not all(isinstance(v_, X.Node) for v_ in (a_, n_, P_)):
+                            bad.append(f'moon {i_}: incomplete triple' + lab_); continue
+                        if not (d.equal(a_ ** 3 * n_ * n_, Gc * (Mh + masses[i_])) and d.equal(P_ * n_ * 86400, 2 * pi)):
+                            bad.append(f'moon {i_}: stored (a, n, P) no longer satisfy Kepler III / P = 2 pi / n' + lab_)
+                    if unb(cell) is not shared0 and not d.equal(unb(cell), shared0):
+                        bad.append('the array the caller handed in was overwritten' + lab_)
+                    if not d.equal(unb(o.attrs[store1][2]), shared0):
+                        bad.append(f'moon 2 lost the {q1} it was given' + lab_)
+                chk.ob('R17.11', f'{share} as {q1}, then moon 1 updated through its {q2}: both moons keep Kepler-consistent triples, moon 2 keeps what it was given, the caller\'s array is intact', not bad,
+                       '; '.join(sorted(set(bad))[:3]), mo.where(ms[m2]), key=f'R17.11|{q1}|{q2}|{share}', method='interpreted mutators with arrays as mutable cells (shared between slots) + GF(p^2) PIT')
+    chk.floor('R17.11', 12)
     # "... for the current masses": a world's mass changes (set_geometry / reinit) and the orbit is given the same value again -- the very same object, as a driver
     # re-sending its state does.  The stored triple must follow the new mass.
     for meth, kw in cases:
